@@ -1177,7 +1177,7 @@ coap_wait_ack(coap_context_t *context, coap_session_t *session,
                  (unsigned)((node->timeout << node->retransmit_cnt) * 1000 /
                             COAP_TICKS_PER_SECOND));
 
-  coap_update_io_timer(context, node->t);
+  coap_update_io_timer(context, (coap_tick_t)node->timeout << node->retransmit_cnt);
 
   return node->id;
 }
